@@ -71,11 +71,11 @@ package utils
 //@ ensures[C07,C20] result != nil && len(result.Title) > 0
 
 //@ func GetConstellation
-//@ ensures[C20] (result == "GPS") == (messageType == 1074 || messageType == 1077)
-//@ ensures[C20] (result == "Glonass") == (messageType == 1084 || messageType == 1087)
-//@ ensures[C20] (result == "Galileo") == (messageType == 1094 || messageType == 1097)
-//@ ensures[C20] (result == "SBAS") == (messageType == 1104 || messageType == 1107)
-//@ ensures[C20] (result == "QZSS") == (messageType == 1114 || messageType == 1117)
-//@ ensures[C20] (result == "Beidou") == (messageType == 1124 || messageType == 1127)
-//@ ensures[C20] (result == "NavIC/IRNSS") == (messageType == 1134 || messageType == 1137)
-//@ ensures[C20] (result == "unknown constellation") == !isMSM(messageType)
+//@ ensures[C20,C06,C17] (result == "GPS") == (messageType == 1074 || messageType == 1077)
+//@ ensures[C20,C06,C17] (result == "Glonass") == (messageType == 1084 || messageType == 1087)
+//@ ensures[C20,C06,C17] (result == "Galileo") == (messageType == 1094 || messageType == 1097)
+//@ ensures[C20,C06,C17] (result == "SBAS") == (messageType == 1104 || messageType == 1107)
+//@ ensures[C20,C06,C17] (result == "QZSS") == (messageType == 1114 || messageType == 1117)
+//@ ensures[C20,C06,C17] (result == "Beidou") == (messageType == 1124 || messageType == 1127)
+//@ ensures[C20,C06,C17] (result == "NavIC/IRNSS") == (messageType == 1134 || messageType == 1137)
+//@ ensures[C20,C06,C17] (result == "unknown constellation") == !isMSM(messageType)
